@@ -224,6 +224,8 @@ pub fn run(opts: &Opts, rep: &Report) {
         Mode::Run(t) => t,
         _ => unreachable!(),
     };
+    // the repository's own command-line tool first, end to end (a fifth of the budget at most)
+    crate::mctool::stage("C02", tier, opts.seed, &Budget::new(opts.budget_s * 0.2), rep);
     let budget = Budget::new(opts.budget_s);
     let all = cases(tier, opts.seed, rep);
     rep.add("cases_enumerated", all.len() as u64);
@@ -302,6 +304,9 @@ pub fn cfg_from_json(v: &Value) -> McCfg {
 }
 
 pub fn replay(case: &Value, rep: &Report) {
+    if crate::mctool::replay("C02", case, rep) {
+        return;
+    }
     let spec = SysSpec::from_json(&case["sys"]).expect("system");
     let cfg = cfg_from_json(&case["cfg"]);
     let r = oracle(&spec, Some(kmax_of(&spec).max(cfg.k)), true);
